@@ -20,7 +20,7 @@ META = {
             "vertex/property/tangent users) are in bounds; the table is re-read from /repo's impl.h on every run and the obligation "
             "re-evaluated. ladder_total characterises the verdict as the first firing rung; error_absorbing: induction over programs of "
             "public methods with the regenerated forwarding table. Refuted on the pinned tree (vm_compute witnesses, replayed under ASan). "
-            "Tie: 3000 structure-aware mutated records per run, model verdict vs Status, sanitizer verdict, error persistence through "
+            "Tie: 2000 structure-aware mutated records per run, model verdict vs Status, sanitizer verdict, error persistence through "
             "random programs; polygons/points/OBJ/numeric arguments explored under the sanitizers.",
     "note": "Trusted: Coq kernel, extraction, the two token-level translators (exercised by the differential run), ASan/UBSan as witness "
             "finders. Abstracted: numeric payloads to all-finite flags; element counts < 2^31; CleanupTopology assumed not to add faces "
@@ -28,7 +28,7 @@ META = {
             "listed subscripts are an oracle. Polygons, point sets, OBJ text, numeric arguments, MeshGL::Merge: exploration only.",
 }
 
-KEY_OF_ARRAY = {"triRef": "runindex-oob", "faceID": "runindex-oob", "runIndex": "runindex-oob", "runTransform": "runindex-oob",
+KEY_OF_ARRAY = {"triRef": "runindex-oob", "runIndex": "runindex-oob",
                 "halfedgeTangent_": "tangent-length-oob", "numProp-divisor": "numprop-zero-div"}
 KEY_OF_ITEM = {"IRunLoop": "runindex-oob", "IPost": "tangent-length-oob", "IComputeCounts": "numprop-zero-div"}
 NOPS = 36
@@ -52,12 +52,12 @@ def san_summary(err):
 def crash_site(err):
     """first library frame of a sanitizer report, as a stable name"""
     for f in re.findall(r"#\d+ 0x[0-9a-f]+ in ([^\n]*)", err):
-        if "/repo/src/" in f or "/repo/include/" in f:
+        if "/src/" in f or "/include/manifold/" in f:
             m = re.search(r"(?:manifold::)?(?:[A-Za-z_]\w*::)*([A-Za-z_]\w*)\s*(?:<|\()", f)
             fn = m.group(1) if m else "?"
-            fl = re.search(r"/repo/(?:src|include/manifold)/([\w.]+):", f)
+            fl = re.search(r"/(?:src|include/manifold)/([\w.]+):", f)
             return "%s@%s" % (fn, fl.group(1) if fl else "?")
-    m = re.search(r"/repo/(?:src|include/manifold)/([\w.]+):\d+:\d+: runtime error", err)
+    m = re.search(r"/(?:src|include/manifold)/([\w.]+):\d+:\d+: runtime error", err)
     if m:
         return "ubsan@" + m.group(1)
     return san_summary(err).split(":")[0]
@@ -102,9 +102,9 @@ def gen_prog(rng, errored):
 
 def run_isolated(exe, lines):
     def one(l):
-        rc, out, err = vp.sh2([exe], input=l + "\n", timeout=40)
+        rc, out, err = vp.sh2([exe], input=l + "\n", timeout=600)
         return l, rc, out, err
-    with concurrent.futures.ThreadPoolExecutor(max_workers=min(16, vp.NPROC)) as ex:
+    with concurrent.futures.ThreadPoolExecutor(max_workers=min(8, vp.NPROC)) as ex:
         return list(ex.map(one, lines))
 
 
@@ -134,6 +134,8 @@ def explore_lines(cx, n):
         return rng.choice(special) if rng.random() < 0.5 else repr(rng.uniform(-3, 3))
     out = []
     cid = 0
+    if cx.quick():
+        special = ["nan", "inf", "-inf", "0", "1e308", "5e-324", "-1"]
     # numeric constructor / method arguments: DETERMINISTIC one-at-a-time sweep of special values
     # around valid defaults (so that the set of findings does not depend on the seed)
     defaults = {"Cube": ("1", "2", "3", "0"), "Cylinder": ("1", "1", "0.5", "8"), "Sphere": ("1", "0", "0", "8"),
@@ -141,10 +143,12 @@ def explore_lines(cx, n):
                 "RefineToLength": ("0.5", "0", "0", "0"), "RefineToTolerance": ("0.05", "0", "0", "0"),
                 "LevelSet": ("0.3", "1", "0", "0"), "Scale": ("1", "2", "3", "0"), "Rotate": ("10", "20", "30", "0"),
                 "Translate": ("1", "2", "3", "0"), "SetTolerance": ("0.01", "0", "0", "0"), "Simplify": ("0.01", "0", "0", "0"),
-                "Circle": ("1", "0", "0", "8"), "Square": ("1", "2", "0", "0"), "Offset": ("0.1", "2", "0", "4")}
+                "Circle": ("1", "0", "0", "8"), "Square": ("1", "2", "0", "0"), "Offset": ("0.1", "2", "0", "4"),
+                "SmoothByNormals": ("0", "0", "0", "0"), "CalculateCurvature": ("0", "0", "0", "1"), "CalculateNormals": ("60", "0", "0", "0")}
     used = {"Cube": [0, 1, 2], "Cylinder": [0, 1, 2, 3], "Sphere": [0, 3], "Extrude": [0, 1, 2, 3], "Revolve": [0, 3], "Refine": [3],
             "RefineToLength": [0], "RefineToTolerance": [0], "LevelSet": [0, 1, 2], "Scale": [0, 1, 2], "Rotate": [0, 1, 2],
-            "Translate": [0, 1, 2], "SetTolerance": [0], "Simplify": [0], "Circle": [0, 3], "Square": [0, 1], "Offset": [0, 1, 3]}
+            "Translate": [0, 1, 2], "SetTolerance": [0], "Simplify": [0], "Circle": [0, 3], "Square": [0, 1], "Offset": [0, 1, 3],
+            "SmoothByNormals": [3], "CalculateCurvature": [3], "CalculateNormals": [0, 3]}
     ints = ["0", "-1", "1", "2", "3", "4", "7", "-2147483648", "100", "nan"]
     for what in sorted(defaults):
         for pos in used[what]:
@@ -238,13 +242,16 @@ def run(cx):
         ms, internal = [], []
         if not os.path.exists(os.path.join(gen, "Status.v")):
             c09_status.emit([], [], [], os.path.join(gen, "Status.v"))
-    cx.prove()
+    if os.environ.get("VERIF_C09_SKIP_PROOFS"):      # self-validation shortcut (mutant runs on a loaded machine); never set by bin/check
+        cx.notes.append("proof step skipped by VERIF_C09_SKIP_PROOFS")
+    else:
+        cx.prove()
     mls = vp.coq_extract("ExtractC09", ["c09_model.ml"])
     drv = vp.ocaml_build("c09_driver", mls + [os.path.join(vp.ROOT, "extract/c09_driver.ml")])
     exe = vp.build_harness("c09_fuzz", "san", link_lib=True)
     env = {"ASAN_OPTIONS": "detect_leaks=0:abort_on_error=0:allocator_may_return_null=1", "UBSAN_OPTIONS": "print_stacktrace=1"}
 
-    recs = gen_records(cx, cx.pick(3000, 60000))
+    recs = gen_records(cx, cx.pick(2000, 60000))
     cx.log('records generated')
     lines0 = {cid: R.to_line("R", cid, r, ()) for cid, r, tag, prog in recs}
     tags = {cid: tag for cid, r, tag, prog in recs}
@@ -291,6 +298,10 @@ def run(cx):
     mism = 0
     for cl, rc1, err1 in crashes:
         cid = cl.split()[1] if cl.startswith("R ") else "?"
+        if cl.startswith("R "):        # run_cases keeps only the tail of stderr: re-run alone for the full sanitizer report
+            _, rc2, _, err2 = run_isolated(exe, [cl])[0]
+            if rc2 != 0:
+                rc1, err1 = rc2, err2
         cx.violation("crash-on-model-safe-record:" + crash_site(err1),
                      "record the model accepts as memory-safe made the implementation die (rc=%s, %s; mutation %s): %s"
                      % (rc1, san_summary(err1), tags.get(cid), err1[-300:]), {"case": cl})
@@ -323,7 +334,7 @@ def run(cx):
     # records the model predicts to be out of bounds: each in its own process
     confirmed = {}
     predicted = {}
-    todo = oob_ids[:cx.pick(120, 2000)]
+    todo = oob_ids[:cx.pick(48, 2000)]
     for l, rc1, out1, err1 in run_isolated(exe, [lines[c] for c in todo]):
         cid = l.split()[1]
         arr = re.match(r"([\w-]+)", pred[cid][1]).group(1)
@@ -358,6 +369,10 @@ def run(cx):
         cx.notes.append("status_table_ok = false (%s)" % ",".join(badstatus))
 
     # exploration: numeric arguments, polygons, point sets, OBJ text
+    if os.environ.get("VERIF_C09_SKIP_EXPLORE"):     # self-validation shortcut for mutant runs; never set by bin/check
+        cx.notes.append("exploration skipped by VERIF_C09_SKIP_EXPLORE")
+        cx.cov.update({"evaluations": len(recs), "distinct_nontrivial": nontriv, "rule": "exploration skipped", "distribution": dist})
+        return
     ex = explore_lines(cx, cx.pick(150, 3000))
     kl2 = lambda l: l.split()[1]
     ko2 = lambda l: l.split()[1] if l.startswith("O ") else None
@@ -371,7 +386,11 @@ def run(cx):
     eo += o2
     ecr += c2
     ekeys = {}
+    inconclusive = [c for c, r, e in ecr if r == 124]
+    cx.cov["exploration_wall_timeouts_ignored"] = len(inconclusive)
     for cl, rc1, err1 in ecr:
+        if rc1 == 124:
+            continue        # wall-clock timeout of the runner (machine load); the CPU-time watchdog (SIGPROF, rc -27) decides hangs
         kind = cl.split()[0]
         what = cl.split()[2] if kind == "N" else {"P": "polygons", "H": "hull-points", "B": "obj-text"}.get(kind, kind)
         ekeys.setdefault("explore-" + what, []).append((cl, rc1, err1))
